@@ -127,7 +127,7 @@ def c04(ctx):
     n3 = RU.rule_r3(ctx, prog)
     ctx.floor("R3", n3, 40, "unsafe constructs (blocks + unsafe fns)")
     n11 = RU.rule_r11_notnone(ctx, prog)
-    ctx.floor("R11", n11, 3, "NotNone constructions")
+    ctx.floor("R11", n11, 2, "NotNone constructions (new and the derived Clone; try_new may delegate to new)")
     n14 = RU.rule_r14(ctx, prog)
     ctx.floor("R14", n14, 4, "rand call sites")
     RSG.rule_r21_compaction(ctx, prog)
@@ -586,6 +586,7 @@ def c19(ctx):
     RT.rule_c01_interpolation(ctx, prog)
     RSG.rule_r25_bulk_selection(ctx, prog)
     RSG.rule_r22_partition(ctx, prog)
+    RS.rule_r12_callsites(ctx, prog)      # the proved bulk selection is entered with a sorted, deduplicated index list
     eff = RE.Effect(ctx, prog, "R4")
     for n in ("partition_mut", "get_many_from_sorted_mut"):
         eff.add_entry(prog.method("Sort1dExt", n), [1])
